@@ -2,10 +2,12 @@
    Proved here (sender half of the mode invariant), for every reachable state with fewer than 2^62 handles ever
    created, all configurations and schedules, clones and drops at any moment: the writers counter equals the
    number of live sender handles, and a sender in single-writer mode is the only live sender - which is what
-   makes its plain store to the head counter sound (C01 file).  Not proved: the receiver half (a handle in
-   single-consumer mode is the only handle of its stream). *)
+   makes its plain store to the head counter sound (C01 file).  The receiver half: for every stream the consumer count equals the total
+   weight of the agents on it, and a handle that behaves as the only consumer (single-consumer mode, a
+   single-consumer receiver type, or an attempt that found the count at one) is the only agent with weight on its
+   stream.  Not proved: observational equivalence of the modes (follows with the slot invariant only). *)
 From Coq Require Import NArith List Bool.
-Require Import MQ.Arith64 MQ.Arith64Facts MQ.Types MQ.State MQ.Model MQ.Exec MQ.Reach MQ.Ctl MQ.Count MQ.WritersStep MQ.InvWriters.
+Require Import MQ.Arith64 MQ.Arith64Facts MQ.Types MQ.State MQ.Model MQ.Exec MQ.Reach MQ.Ctl MQ.Count MQ.WritersStep MQ.InvWriters MQ.SumCount MQ.RecvDefs MQ.InvRecv MQ.SoleDefs MQ.InvSole.
 Open Scope N_scope.
 
 Theorem C12_writers_counts_live_senders : forall c fut s,
@@ -23,6 +25,26 @@ Check C12_single_writer_mode_is_sole : forall c fut s a A,
   reach c fut s -> lenN (ags s) < B62 ->
   get (ags s) a = Some A -> cs a A = true -> a_multi A = false -> cnt cs (ags s) = 1.
 Print Assumptions C12_single_writer_mode_is_sole.
+
+Theorem C12_consumer_count_is_population : forall c fut s sg,
+  reach c fut s -> lenN (ags s) < B62 ->
+  sumf (wt sg) (ags s) = 0 \/ gcons (sh s) sg = sumf (wt sg) (ags s).
+Proof.
+  intros c fut s sg R Small. destruct (recv_mreach c fut s (reach_mreach c fut s R)) as (_ & _ & _ & CE). exact (CE Small sg).
+Qed.
+Check C12_consumer_count_is_population : forall c fut s sg,
+  reach c fut s -> lenN (ags s) < B62 ->
+  sumf (wt sg) (ags s) = 0 \/ gcons (sh s) sg = sumf (wt sg) (ags s).
+Print Assumptions C12_consumer_count_is_population.
+
+Theorem C12_single_consumer_mode_is_sole : forall c fut s a A,
+  reach c fut s -> lenN (ags s) < B62 -> get (ags s) a = Some A -> claims_sole A = true ->
+  sumf (wt (a_sid A)) (ags s) = 1.
+Proof. exact sole_reach. Qed.
+Check C12_single_consumer_mode_is_sole : forall c fut s a A,
+  reach c fut s -> lenN (ags s) < B62 -> get (ags s) a = Some A -> claims_sole A = true ->
+  sumf (wt (a_sid A)) (ags s) = 1.
+Print Assumptions C12_single_consumer_mode_is_sole.
 
 Example C12_witness :
   let c := mk_cfg BCast 2 WBusy in
